@@ -742,9 +742,13 @@ class KlongInterpreter():
         cache_key = (x, self._module)
         cached = self._parse_cache.get(cache_key)
         if cached is None:
+            module_before = self._module
             i, prog = self.prog(x)
             cached = prog[0] if len(prog) == 1 else prog
-            self._parse_cache[cache_key] = cached
+            # a .module() directive switches the parser's module while parsing:
+            # replaying the cached tree would skip that switch, so do not memoise it
+            if self._module == module_before:
+                self._parse_cache[cache_key] = cached
 
         # Try compiled path (single expressions only)
         if type(cached) is not list:
